@@ -497,13 +497,16 @@ def run(tier, seed):
     for f in rng.sample(swfuncs, 2):
         samples.append({"part": "switch", "typing": f["typing"], "source": f["pyx"], "subjects": lc.SUBJECTS, "expected": sw_expected[f["name"]]})
 
-    # distinct (function, arguments) pairs that were really executed on compiled code
+    # distinct (function, arguments) pairs executed on compiled code whose expected outcome is not the plain
+    # "False" / "no arm selected" bulk: a true or non-bool result, an exception, or a selected arm
     nontriv = 0
     for (b, names, table) in jobs:
         for name in names:
             s, recs = per_func[name]
-            nontriv += len({json.dumps(case_args(s, rec), sort_keys=True) for rec in recs})
-    nontriv += sum(len(lc.SUBJECTS) * len(names) for (b, names, table, mode) in swjobs)
+            nontriv += len({json.dumps(case_args(s, rec), sort_keys=True) for rec, e in zip(recs, expected[name]) if not e.startswith("False")})
+    for (b, names, table, mode) in swjobs:
+        for name in names:
+            nontriv += sum(1 for e in sw_expected[name] if e not in ("r0", "r-1", "rN", "False"))
     tl = cov["tlc"]
     cov.update({
         "states": sum(t["states_generated"] for t in tl), "distinct_states": sum(t["distinct_states"] for t in tl),
@@ -518,7 +521,8 @@ def run(tier, seed):
         "B3_switch_statements_in_generated_C": b3, "timing_s": timing,
         "rule": "one compiled function per shape (operator sequence x operand typing x context x leaf/name form; container kind x form x "
                 "subject typing; if/elif chain x subject typing x use_switch), called with every value tuple TLC enumerated for it; "
-                "non-trivial = distinct (function, arguments) pairs",
+                "non-trivial = distinct (function, arguments) pairs whose expected outcome is a true or non-bool value, an exception or a selected arm "
+                "(not the plain False / no-arm bulk)",
         "samples": samples,
     })
     rc = rep.finish()
